@@ -12,6 +12,8 @@ def ev_coq(e):
         return "Tick %s" % coq_z(e["now"])
     if k == "alter":
         return "Alter %s %s" % (coq_z(e.get("rp", 0)), coq_z(e.get("d", 0)))
+    if k == "tickfail":
+        return "TickAborted %s" % coq_z(e["now"])
     if k == "restart":
         return "Restart"
     if k == "addgroup":
